@@ -91,6 +91,7 @@ type c05Agent struct {
 	bofcb      map[uint32]bool // object-file tasks whose result goes to a script (HasCallback)
 	dead       bool
 	relayed    bool // relay tasks (request id 0) were queued for it
+	relayRIDs  []uint32 // request ids the relay tasks handed to it carried
 	proxy      bool
 	parent     *c05Agent // SMB parent (nil: speaks HTTP itself)
 	seen       int       // tasks of d.Tasks already accounted for
@@ -174,7 +175,11 @@ func (c05) Exec(p *Plan, dir string) *Result {
 		a := p.Actions[i]
 		w.Sim.SetAction(i)
 		ag := ags[a.B%len(ags)]
-		if ag.dead || (ag.parent != nil && ag.parent.dead) {
+		if ag.dead && a.Kind == "callback" && ag.parent == nil && a.A%ridClasses != ridOutstanding && a.A%ridClasses != ridQueuedNotHandedOut {
+			// a session that is dead (exited, marked) still gets callbacks with ids that are not
+			// outstanding: they change nothing - least of all bring it back to life
+			res.Probe("gated-callbacks-to-dead-sessions")
+		} else if ag.dead || (ag.parent != nil && ag.parent.dead) {
 			continue
 		}
 		switch a.Kind {
@@ -312,6 +317,8 @@ func (c05) Exec(p *Plan, dir string) *Result {
 				if t.Cmd != world.CmdSocket {
 					continue
 				}
+				// whatever request id the relay task carries (0 as it stands): no operator issued it
+				ag.relayRIDs = append(ag.relayRIDs, t.RID)
 				if st := world.ParseSockTask(t.Body); st.Sub == world.SockConnect {
 					ag.d.Out = append(ag.d.Out, world.SockConnectReply(0, st.ID, false, 10061))
 				}
@@ -426,6 +433,9 @@ func (c05) Exec(p *Plan, dir string) *Result {
 				if ag.relayed && cr.Intn(2) == 0 {
 					// the id the teamserver's own relay tasks carry: no operator task has it
 					rid = 0
+					if n := len(ag.relayRIDs); n > 0 {
+						rid = ag.relayRIDs[cr.Intn(n)]
+					}
 					res.Probe("request-id-of-relay-tasks")
 				}
 			}
